@@ -85,7 +85,14 @@ class IsolationScenario(StateScenario):
         # a typed dict whose values are untyped lists, with a mutable default (in the quantifier: "mutable
         # defaults on typed fields")
         if "typed-dict-untyped-list-default" not in avoid and rng.random() < 0.35:
-            h["sd"]["root"]["fields"].append({"kind": "dict", "key": "DL", "o": {"default": {"k": [1, [2]], "j": []}},
+            dflt = {"k": [1, [2]], "j": []}
+            how = rng.choice(["constant", "factory", "shared-factory"])
+            if how != "constant":
+                dflt = {"$call": dflt}
+                if how == "shared-factory":
+                    dflt["$shared"] = True
+            h["sd"]["root"]["fields"].append({"kind": "list", "key": "LL", "o": {"default": {"$call": [[1], {"a": [2]}], "$shared": True}}})
+            h["sd"]["root"]["fields"].append({"kind": "dict", "key": "DL", "o": {"default": dflt},
                                               "kf": {"kind": "string", "o": {}}, "vf": {"kind": "list", "o": {}}})
         return h
 
@@ -111,9 +118,12 @@ class IsolationScenario(StateScenario):
     def gen_deep(self, st, rng, cfg, tgts, cfgpaths, owners):
         """In-place mutation of a mutable value *inside* a typed container value."""
         cands = [t for t in tgts if t.node["kind"] == "dict" and (t.node.get("vf") or {}).get("kind") == "list" and isinstance(t.value, dict) and t.value]
+        cands += [t for t in tgts if t.path == "LL" and isinstance(t.value, list) and t.value]
         if not cands:
             return None
         t = rng.choice(cands)
+        if t.path == "LL":
+            return {"op": "deep", "path": "LL", "k": 0, "v": rng.choice([9, "z", [3]])}
         key = rng.choice(sorted(dict.keys(t.value), key=repr))
         return {"op": "deep", "path": t.path, "k": enc(key), "v": rng.choice([9, "z", [3]])}
 
@@ -172,7 +182,7 @@ class IsolationScenario(StateScenario):
     def do_deep(self, st, cfg, c, op, rec):
         try:
             d = ops.resolve(cfg, op["path"])
-            inner = dict.__getitem__(d, dec(op["k"]))
+            inner = list.__getitem__(d, 0) if isinstance(d, list) else dict.__getitem__(d, dec(op["k"]))
         except Exception:  # noqa: BLE001
             rec.log("deep", "skip")
             return
